@@ -266,3 +266,41 @@ def run(ctx):
     else:
         r3.violation("reload-reached", "the phonetic method's update_engine never reloads the user auto-correct map", common.fn_line(prog, R["update"]))
     r3.floor(2, "one reassignment + reload reached")
+
+    # ---------------- R4 the reload gate (modification time) advances only together with a reload
+    r4 = chk.rule("C11.R4", "update-engine advances the stored modification time only on paths that also replace the user auto-correct map",
+                  "a user auto-correct file edited in the meantime is honoured (a file that is not loaded must not be remembered as seen)")
+    from engine.analyses import enumerate_paths, PathLimit
+    from . import roles as _roles
+    ts_fields = [n for n, t in R["fields"].items() if t == "std::time::SystemTime"]
+    if len(ts_fields) != 1:
+        r4.undecidable("gate", "modification-time field (SystemTime) of the phonetic method matched %s" % ts_fields)
+    else:
+        ts = ts_fields[0]
+        ub = _roles.ib_paths(prog, R["update"])
+        ws = phonetic.field_writes(prog, R["update"], mods, body=ub)
+        ts_bbs = {bb for (fl, op, bb, w) in ws if fl[:1] == (ts,)}
+        ac_bbs = {bb for (fl, op, bb, w) in ws if fl[:2] == (R["sug_field"], R["user_autocorrect"]) and op == "assign"}
+        if not ts_bbs:
+            r4.violation("gate", "update-engine never advances self.%s: the file would be re-read on every call (or never, if the gate is gone)" % ts, common.fn_line(prog, R["update"]))
+        else:
+            try:
+                n_p = 0
+                bad = None
+                for path in enumerate_paths(ub):
+                    on = {bb for (bb, vals) in path}
+                    if on & ts_bbs:
+                        n_p += 1
+                        if not (on & ac_bbs):
+                            bad = path
+                            break
+                if bad is not None:
+                    r4.violation("gate", "a path of update-engine stores the file's modification time in self.%s without replacing the auto-correct map — the edit is "
+                                 "remembered as seen but never loaded (a newly created context would load it)" % ts, site_of(ub, sorted(set(bb for bb, _ in bad) & ts_bbs)[0]))
+                elif n_p == 0:
+                    r4.undecidable("gate", "no path writes the modification time")
+                else:
+                    r4.ok("gate", "%d path(s) advance self.%s, each also assigns self.%s.%s" % (n_p, ts, R["sug_field"], R["user_autocorrect"]))
+            except PathLimit as e:
+                r4.undecidable("gate", "cannot enumerate the paths of update-engine: %s" % e)
+    r4.floor(1, "gate")
